@@ -107,7 +107,7 @@ class C05(Prop):
     chunk = 100
     assumptions = [
         "TableauOK/DensityOK are evaluated by TLC on every recorded post-tableau; DensityGround (Tr rho = 1, rho^2 = 2^-r rho) ties them to matrices for N<=2",
-        "one-step closure: pre-states enumerate the complete valid tableau space for N<=2 (thorough) -- phases of standby/destabilizer rows are Hermitian in the enumeration; the kernels never read a standby phase into an active row",
+        "one-step closure: pre-states enumerate the complete valid tableau space for N<=2 (thorough) -- phases of standby/destabilizer rows are Hermitian in the enumeration and must stay Hermitian (StepsHermOK): to_map() / diagonalize() turn them into map images",
         "quick: VERIF_SEED-chosen subset of the N=2 space (no closure claim); histories for N=2..5 from TLC -simulate (MC_TabWalk)",
     ]
     rule = ("one record per pre-tableau with one entry per public state-changing call (rotate, masked rotate, transform, masked transform, "
